@@ -24,7 +24,17 @@ import (
 // seed replays exactly.
 type Rng struct{ s uint64 }
 
-func NewRng(seed uint64) *Rng { return &Rng{s: seed*0x9e3779b97f4a7c15 + 0x1234567} }
+func NewRng(seed uint64) *Rng {
+	// decorrelate consecutive seeds: the state is a mixed function of the seed
+	// (a plain multiple of the increment would make seed s+1 the stream of seed s shifted by one)
+	z := seed + 0x632be59bd9b4e019
+	z = (z ^ (z >> 30)) * 0xbf58476d1ce4e5b9
+	z = (z ^ (z >> 27)) * 0x94d049bb133111eb
+	z ^= z >> 31
+	z = (z ^ (z >> 33)) * 0xff51afd7ed558ccd
+	z ^= z >> 29
+	return &Rng{s: z}
+}
 func (r *Rng) U64() uint64 {
 	r.s += 0x9e3779b97f4a7c15
 	z := r.s
